@@ -270,10 +270,14 @@ struct Minimiser {
                         try_mod([k](Op &o) { if (k >= o.del.size() || o.del[k] == 32) return false; o.del[k] = 32; return true; });
                     for (size_t k = 0; k < p.tasks[t].ops[i].os.size(); k++) {
                         try_mod([k](Op &o) { if (k >= o.os.size() || o.os[k].empty()) return false; o.os[k].clear(); return true; });
-                        for (size_t e = 0; k < p.tasks[t].ops[i].os.size() && e < p.tasks[t].ops[i].os[k].size();) {
-                            Plan q = p; auto &s = q.tasks[t].ops[i].os[k];
-                            s.erase(s.begin() + (long)e);
-                            if (fails(q)) { p = q; progress = true; } else e++;
+                        // ddmin over the script's elements (scripts can be thousands of transient errors long)
+                        for (size_t chunk = std::max<size_t>(1, (k < p.tasks[t].ops[i].os.size() ? p.tasks[t].ops[i].os[k].size() : 0) / 2); chunk >= 1; chunk /= 2) {
+                            for (size_t e = 0; k < p.tasks[t].ops[i].os.size() && e < p.tasks[t].ops[i].os[k].size();) {
+                                Plan q = p; auto &s = q.tasks[t].ops[i].os[k];
+                                s.erase(s.begin() + (long)e, s.begin() + (long)std::min(s.size(), e + chunk));
+                                if (fails(q)) { p = q; progress = true; } else e += chunk;
+                            }
+                            if (chunk == 1) break;
                         }
                     }
                     for (uint32_t bit : {F_TWICE, F_INPLACE, F_NULLPTR, F_NOCUSTOM, F_CORRUPT})
@@ -602,6 +606,23 @@ int cmd_run(const Args &a) {
                 m.run(p);
                 ChildResult rf = run_child(p, armed);
                 bool hard = r1.cls.compare(0, 5, "crash") == 0 || r1.cls.compare(0, 9, "sanitizer") == 0 || r1.cls == "hang";
+                // a crash / hang / wild write counts for the armed property only when it happens in an operation that
+                // belongs to that property's statement; elsewhere it is some other property's business
+                std::string where = (rf.ok && rf.violated ? rf.sig : r1.sig);
+                where = where.find('@') == std::string::npos ? "" : where.substr(where.find('@') + 1);
+                bool foreign = false;
+                if (hard && armed == C20) foreign = !(where.find("_FREE") != std::string::npos || where.find("X_CLEAN") != std::string::npos);
+                if (hard && armed == C16) foreign = true; // C16 is a budget statement; crashes and hangs are C17's
+                if (foreign) {
+                    printf("OBSERVATION (not a violation of %s: %s in %s, an operation outside this property's statement): run %lld: %s\n", a.prop.c_str(), r1.cls.c_str(), where.c_str(), (long long)vi, r1.detail.c_str());
+                    Json ob = Json::obj(); ob.set("class", r1.cls); ob.set("detail", r1.detail); ob.set("run_index", (long long)vi); ob.set("plan", plan_to_json(p));
+                    res.set("unclaimed_observation", ob);
+                    res.set("search_truncated_at_run", (long long)vi);
+                    res.set("violations", 0);
+                    if (!a.out.empty()) write_file(a.out, res.str(1));
+                    munmap((void *)shm, sizeof(Shm));
+                    return 0;
+                }
                 if (armed == C19 && hard && single_caller_single_object(p)) {
                     // the failure needs neither a second caller nor an unrelated earlier call: it is a sequential defect of one
                     // API family (some other property's business), not a reentrancy violation
